@@ -1,3 +1,4 @@
+import PB.Model.DbProto
 import PB.Drv.Loop
-/- Driver stub for C03 (model not built yet): every op is rejected. -/
-def main : IO Unit := PB.Drv.lineLoop (fun _ => "bad-op")
+/- Driver for C03: one database-interface operation per line (see PB.Model.DbProto for the protocol). -/
+def main : IO Unit := PB.Drv.runState ({} : PB.Db.Proto.Sys) PB.Db.Proto.handle
